@@ -51,7 +51,7 @@ impl Prop for P {
     const LEVEL: &'static str = "fault_enumeration";
 
     fn cases(tier: Tier) -> u32 {
-        tier.pick(1600, 40000)
+        tier.pick(3200, 40000)
     }
 
     fn strategy(tier: Tier) -> BoxedStrategy<Case> {
